@@ -430,6 +430,53 @@ func runContractSizeResponses(b *harness.B) {
 		}
 	}
 
+	// the last message of a formation carries the finished transaction, with the inputs of BOTH parties: requests and
+	// host responses that each fit their own limit must lead to a third response the renter can read
+	{
+		formReq, hostResp, third := find("rhp4.RPCFormContractRequest"), find("rhp4.RPCFormContractResponse"), find("rhp4.RPCFormContractThirdResponse")
+		const perSide, proofLen = 55, 24
+		pol := types.PolicyPublicKey(k.hostPK)
+		mkIn := func(i int) types.V2SiacoinInput {
+			e := types.SiacoinElement{ID: types.SiacoinOutputID(g.hash()), SiacoinOutput: types.SiacoinOutput{Value: types.Siacoins(100), Address: pol.Address()}}
+			e.StateElement.LeafIndex = uint64(5000 + i)
+			e.StateElement.MerkleProof = g.fastHashes(proofLen)
+			return types.V2SiacoinInput{Parent: e, SatisfiedPolicy: types.SatisfiedPolicy{Policy: pol, Signatures: []types.Signature{g.sig()}}}
+		}
+		req := formReq.max(g, k).(*rhp4.RPCFormContractRequest)
+		req.RenterParents, req.RenterInputs = nil, nil
+		var all []types.V2SiacoinInput
+		for i := 0; i < perSide; i++ {
+			in := mkIn(i)
+			req.RenterInputs = append(req.RenterInputs, in.Parent)
+			all = append(all, in)
+		}
+		hr := &rhp4.RPCFormContractResponse{}
+		for i := 0; i < perSide; i++ {
+			in := mkIn(perSide + i)
+			hr.HostInputs = append(hr.HostInputs, in)
+			all = append(all, in)
+		}
+		encReq, e1 := r4Encode(formReq, req)
+		encHR, e2 := r4Encode(hostResp, hr)
+		b.Eval(1)
+		if e1 != nil || e2 != nil || int64(len(encReq)) > formReq.recvLimit() || int64(len(encHR)) > hostResp.recvLimit() {
+			b.Inconclusive("formation messages of 55 inputs per side do not fit their own limits")
+		} else {
+			fc, _ := rhp4.NewContract(req.Prices, req.Contract, k.hostPK, types.StandardUnlockHash(k.hostPK))
+			txn := types.V2Transaction{SiacoinInputs: all, FileContracts: []types.V2FileContract{fc}, MinerFee: types.Siacoins(1),
+				SiacoinOutputs: []types.SiacoinOutput{{Value: types.Siacoins(1), Address: pol.Address()}, {Value: types.Siacoins(1), Address: pol.Address()}}}
+			resp := &rhp4.RPCFormContractThirdResponse{Basis: types.ChainIndex{Height: 1000, ID: types.BlockID(g.hash())}, TransactionSet: []types.V2Transaction{txn}}
+			enc, _ := r4Encode(third, resp)
+			wit := map[string]any{"inputs_per_side": perSide, "proof_hashes_per_input": proofLen, "request_bytes": len(encReq), "request_limit": formReq.recvLimit(), "host_response_bytes": len(encHR), "host_response_limit": hostResp.recvLimit(), "third_response_bytes": len(enc), "third_response_limit": third.recvLimit()}
+			b.Count("request_determined_responses_checked", 1)
+			if _, _, err := r4Decode(third, bytes.NewReader(enc)); err != nil {
+				wit["read_error"] = err.Error()
+				b.Violate("C19/exceeds-maxLen/rhp4.RPCFormContractThirdResponse/transaction-with-the-inputs-of-both-parties-each-within-its-limit",
+					fmt.Sprintf("a formation in which each side funds from %d outputs: request %d bytes (limit %d), host inputs %d bytes (limit %d), both admitted; the finished transaction in the third response needs %d bytes, the renter reads at most %d: %v", perSide, len(encReq), formReq.recvLimit(), len(encHR), hostResp.recvLimit(), len(enc), third.recvLimit(), err), wit)
+			}
+		}
+	}
+
 	// AppendSectorsResponse and SectorRootsResponse over contract sizes
 	app := find("rhp4.RPCAppendSectorsResponse")
 	roots := find("rhp4.RPCSectorRootsResponse")
